@@ -214,7 +214,7 @@ fn run_worker(
         }
     };
     // backstop: the worker's own watchdog should fire first
-    let backstop = Duration::from_millis(opts.job_timeout_ms * (jobs.len() as u64 + 2) + 60_000);
+    let backstop = Duration::from_millis(opts.job_timeout_ms * 8 * (jobs.len() as u64 + 2) + 60_000);
     let t0 = Instant::now();
     let status;
     let mut killed = false;
@@ -343,19 +343,28 @@ pub fn run_chunks(chunks: Vec<Chunk>, opts: &RunOpts, scratch: &Path) -> BTreeMa
             }
             let mut remaining: Vec<(usize, Value)> = chunk.jobs.clone();
             let mut attempt = 0;
+            let mut timed_out_once: Vec<usize> = vec![];
             while !remaining.is_empty() {
                 attempt += 1;
                 let tag = format!("w{}c{}a{}", w, ci, attempt);
                 let run = run_worker(&opts, &chunk.env, &remaining, &scratch, &tag);
                 let mut res = results.lock().unwrap();
                 let mut done: Vec<usize> = vec![];
+                let mut progressed = false;
                 for (idx, v) in run.results {
                     res.insert(idx, Outcome::Result(v));
                     done.push(idx);
                 }
                 if let Some(t) = run.timed_out {
-                    res.insert(t, Outcome::Timeout);
-                    done.push(t);
+                    // a time-out is only believed when a second attempt, first job of a fresh
+                    // worker process, runs into the limit again
+                    if timed_out_once.contains(&t) {
+                        res.insert(t, Outcome::Timeout);
+                        done.push(t);
+                    } else {
+                        timed_out_once.push(t);
+                        progressed = true;
+                    }
                 }
                 if let Some(f) = run.in_flight {
                     res.insert(
@@ -370,7 +379,7 @@ pub fn run_chunks(chunks: Vec<Chunk>, opts: &RunOpts, scratch: &Path) -> BTreeMa
                 drop(res);
                 let before = remaining.len();
                 remaining.retain(|(i, _)| !done.contains(i));
-                if remaining.len() == before {
+                if remaining.len() == before && !progressed {
                     // the worker made no progress at all (could not even start): harness error
                     note_harness_error(&format!("worker made no progress: {} | {}", run.status, run.stderr_tail));
                     let mut res = results.lock().unwrap();
